@@ -20,7 +20,7 @@ EXHAUSTIVE_SUBDOMAINS = ["UF x RR x DI x RRS (131072 cells)", "UF11: PR x CL x I
                          "DI in {0,1,7} x IIS x LOS and DI=3 x SIS x LSS for UF 4/5/20/21"]
 ASSUMPTIONS = ["for DI values other than 0,1,3,7 only UF, BDS1 and the agreement of uplink_fields() with the single-field "
                "functions are judged (the SD sub-fields for those DI codes are not asserted from memory)"]
-REQUIRED = ["fields_redecode_after_caller_edit", "addr56", "addr112", "uf11", "rollcall", "other_uf", "di0", "di1", "di3", "di7", "di_other", "rr_low", "rr_high",
+REQUIRED = ["fields_redecode_after_caller_edit", "data_is_multiple_of_generator", "addr56", "addr112", "uf11", "rollcall", "other_uf", "di0", "di1", "di3", "di7", "di_other", "rr_low", "rr_high",
             "fields_agree"]
 
 
@@ -41,6 +41,8 @@ def m_addr(ctx, case):
     if r != ("ok", "%06X" % addr):
         ctx.violation("uplink-address-wrong", frame=hx, expected="%06X" % addr, observed=r[1:])
     ctx.hit("addr%d" % n)
+    if case.get("genmult"):
+        ctx.hit("data_is_multiple_of_generator")
     ctx.nontrivial(("ua", hx))
     if ctx.rng.random() < 0.0005:
         ctx.sample({"interrogation": hx, "address": "%06X" % addr})
@@ -185,6 +187,21 @@ def cases(ctx):
                 if ctx.mine(i):
                     yield "addr", {"n": n, "addr": a, "data": "%X" % (rng.fill(n - 24) if rep else 0), "lower": rep == 1}
                 i += 1
+    # data fields that are small multiples of the generator polynomial (the division register runs empty half-way), with
+    # addresses whose AP overlay starts with zero bits
+    G = bits.GEN
+    for n in (56, 112):
+        w = n - 24
+        for sh in range(0, w - 24):
+            for m_ in (1, 3, 5):
+                d = 0
+                for b_ in range(3):
+                    if (m_ >> b_) & 1 and sh + b_ * 5 <= w - 25:
+                        d ^= G << (sh + b_ * 5)
+                for a in (rng.fill(24), rng.getrandbits(12), 1, 0xFFFFFF):
+                    if ctx.mine(i):
+                        yield "addr", {"n": n, "addr": a, "data": "%X" % d, "lower": (sh + m_) % 3 == 0, "genmult": 1}
+                    i += 1
     for k in range(ctx.share(100000 if quick else 4000000)):
         n = rng.choice((56, 112))
         yield "addr", {"n": n, "addr": rng.fill(24), "data": "%X" % rng.fill(n - 24), "lower": k % 4 == 0}
